@@ -8,6 +8,7 @@ f17_0:
   call f12_1
   call f15_0
   call f4_0
+  mov wvsv1(%rip),%rax
   ret
 .section .text.f17_1,"ax",@progbits
 .globl f17_1
@@ -15,6 +16,7 @@ f17_0:
 f17_1:
   ret
   call f7_1
+  mov wvsv1(%rip),%rax
   ret
 .section .text.f17_2,"ax",@progbits
 .globl f17_2
@@ -23,4 +25,7 @@ f17_2:
   ret
   call f1_0
   call f5_1
+  mov wvsv1@GOTPCREL(%rip),%rax
+  mov wvsv0(%rip),%rax
+  mov wvsv1(%rip),%rax
   ret
